@@ -257,16 +257,9 @@ def run(ctx: Context) -> None:
               and flow.canon(v.args[0]) == ('attr', ('param', 'self'), 'polygons'))
         ctx.check('R02.5', ok, "STRtree(self.polygons): tree positions are linear indexes", st, r)
     mk = ctx.func(f"{BASE}.mask")
-    flow = ctx.flow(mk)
-    gens = [n for n in ast.walk(mk.node) if isinstance(n, ast.GeneratorExp)]
-    ok = False
-    if len(gens) == 1:
-        g = gens[0].generators[0]
-        ok = (not g.ifs and flow.canon(g.iter) == ('attr', ('param', 'self'), 'polygons')
-              and norm_text(gens[0].elt) == f"{g.target.id} is not None")
-        fr = [c for c in calls_in(mk) if callee(ctx, mk, c) == 'numpy.fromiter']
-        ok = ok and len(fr) == 1 and fr[0].args[0] is gens[0] and norm_text(kwarg(fr[0], 'count') or ast.Constant(None)) == 'self.polygons.size'
-    ctx.check('R02.5', ok, "mask[n] = polygons[n] is not None, one entry per slot in order", mk, gens[0] if gens else mk.node)
+    from .common import polygons_mask_ok
+    ok, how = polygons_mask_ok(ctx, mk)
+    ctx.check('R02.5', ok, "mask[n] = polygons[n] is not None, one entry per slot in order", mk, mk.node, construct=f"Convention.mask: {how}")
     pg = ctx.func(f"{BASE}.polygons")
     flow = ctx.flow(pg)
     mkc = [c for c in method_calls(pg, '_make_polygons') if flow.canon(c.func.value) == ('param', 'self')]
